@@ -4,14 +4,17 @@ _T = ['CPython ast semantics for Python 3.12']
 
 PROPS = {
     'C01': {'explanation': 'Static necessary conditions of byte-exact uploads/copies: bounded part views, part record = part sent, '
-                           'order-preserving collection of part results, single non-loop final Complete task.',
+                           'order-preserving collection of part results, single non-loop final Complete task, streams read to EOF from their position, '
+                           'every copy task copies from the caller\'s copy_source unchanged.',
             'trusted_base': ['botocore client sends Body as read', 'S3 assembles parts by PartNumber'],
             'assumptions': ['user streams honour read(n) <= n', 'equality of bytes is not decided statically']},
     'C02': {'explanation': 'Static necessary conditions of exact downloads across retries: offset-oblivious writers only behind the '
-                           'de-dup queue, per-attempt cursor reset in every retry loop, extent-aware discard (shared with C16).',
+                           'de-dup queue, per-attempt cursor reset in every retry loop, extent-aware discard (shared with C16), response bodies drained '
+                           'until an empty read (a short read is not EOF), offset-tagged data written after a seek to its own offset on every path.',
             'trusted_base': ['file objects honour seek/write'], 'assumptions': ['byte equality over all fault sequences is not decided']},
     'C03': {'explanation': 'Error discipline on every path: single exception funnel in Task.__call__, one writer of success, classified '
-                           'except handlers, bounded retry loops with the exact retryable set, submission failures recorded then announced.',
+                           'except handlers, bounded retry loops with the exact retryable set, submission failures recorded then announced, '
+                           'only the task funnels record a failure (a step signals failure by raising).',
             'trusted_base': ['botocore-level retries'], 'assumptions': ['which of several concurrent failures is reported is not decided']},
     'C04': {'explanation': 'Structural reasons every transfer terminates: no user code under the coordinator state lock, result() unblocked '
                            'before on_done, one finaliser per submission path, waits only on earlier work of the same stage, '
@@ -40,10 +43,10 @@ PROPS = {
                            'the right semaphore kind/size, tag overrides stage semaphore, reads bounded by the requested amount.',
             'trusted_base': [], 'assumptions': ['high-water marks as numbers are not decided']},
     'C12': {'explanation': 'Condition discipline, rejected releases change no state, bookkeeping only under the lock, non-blocking acquire '
-                           'never waits, acquire/release pairing through the executor.',
+                           'never waits, acquire/release pairing through the executor, all sliding-window state keyed by the tag.',
             'trusted_base': ['threading.Condition'], 'assumptions': ['token numbering/capacity formula over histories is not decided']},
     'C13': {'explanation': 'One bucket per manager wrapping every byte mover, dead transfers stop waiting, scheduled tokens are released or '
-                           'unscheduled on every exit, small bodies charged on close.',
+                           'unscheduled on every exit, small bodies charged on close, scheduler add/subtract pairing, clock read under the bucket lock.',
             'trusted_base': [], 'assumptions': ['rates, bursts and wait-time bounds (timing) are not decided']},
     'C14': {'explanation': 'Sibling agreement of the eight multipart decisions, tiling identities of range/offset expressions in polynomial '
                            'normal form, S3 limits folded and applied.',
